@@ -6,7 +6,9 @@ al = VerusUnit("al_astar", "al_astar", rlimit=60)
 APP = "routee-compass"
 tw = KaniUnit("c04_reverse_turn_wit", APP, modules=[dict(file=APP + "/src/app/compass/config/frontier_model/turn_restrictions/turn_restriction_model.rs", src="c04_reverse_turn_wit.rs")], harnesses=[])
 tw.native_witnesses = ["c04_wit_forward_search_avoids_the_restricted_turn", "c04_wit_reverse_search_avoids_the_restricted_turn", "c04_wit_edge_oriented_route_avoids_the_restricted_turn_after_the_origin_edge"]
-UNITS = [fr, al, tw]
+rf = KaniUnit("c04_restriction_file_wit", APP, modules=[dict(file=APP + "/src/app/compass/config/frontier_model/vehicle_restrictions/vehicle_restriction_builder.rs", src="c04_restriction_file_wit.rs")], harnesses=[])
+rf.native_witnesses = ["c04_wit_every_restriction_row_of_an_edge_is_kept"]
+UNITS = [fr, al, tw, rf]
 EXPLANATION = ("every frontier model's valid_frontier and VehicleRestriction::valid extracted verbatim and verified (Verus; reals for the unit conversions, physical 0.1 % lemmas "
                "for distance and weight units); the driver invariant PERM of unit AL: every tree entry's edge passed valid_frontier with the expanded vertex' stored edge and state")
 NOT_DECIDED = ("RoadClassParser::read_query and VehicleParameters::from_query (serde_json); that a parent's stored edge is still the same when the route is read back "
